@@ -17,7 +17,8 @@ META = {
              'before / after every query. EXHAUSTIVE: all 2-node graphs over 16 node kinds (type x viable x necessary) x all edge '
              'sets incl. self-loops x all compromised subsets (quick and thorough), all 3-node loop-free graphs (thorough; '
              'sampled in quick); random graphs with up to 150 nodes, 1-3 attackers, defense values next to 0 and 1, and-steps with 13-129 parents whose necessary parents are exactly / all but one reached; non-trivial = some and-node has both a '
-             'necessary and an unnecessary parent or some reached node has a non-traversable child; distinct = digest(case)'),
+             'necessary and an unnecessary parent or some reached node has a non-traversable child; distinct = digest(case)'
+             '; added strata: defense values next to 0 and 1, and-steps with 13-129 parents, attackers with entry points but nothing reached, the simulation continued on a deep copy / on a saved-and-loaded graph'),
     'assumptions': ['definitions as stated in C12; defense / exist / notExist nodes are never traversable'],
     'shards': {'quick': 8, 'thorough': 16},
     'quotas': {
